@@ -252,7 +252,6 @@ func (s *Sim) GetObj(k Key) map[string]interface{} {
 	return nil
 }
 
-
 // Mutate applies fn to the stored object (out-of-band edit).
 func (s *Sim) Mutate(k Key, fn func(o map[string]interface{})) bool {
 	s.mu.Lock()
@@ -291,6 +290,21 @@ func (s *Sim) Snapshot() map[Key]map[string]interface{} {
 }
 
 // Requests returns a copy of the request log from index from.
+// CountBy returns how many HTTP requests process proc has sent so far (served or not).
+func (s *Sim) CountBy(proc int) (all, writes int) {
+	s.mu.Lock()
+	defer s.mu.Unlock()
+	for _, r := range s.reqs {
+		if r.Proc == proc {
+			all++
+			if r.Method != http.MethodGet {
+				writes++
+			}
+		}
+	}
+	return
+}
+
 func (s *Sim) Requests(from int) []Request {
 	s.mu.Lock()
 	defer s.mu.Unlock()
@@ -398,6 +412,8 @@ func (s *Sim) handle(proc int, req *http.Request, body []byte) (int, interface{}
 	}
 	p := parsePath(path)
 	if !p.ok {
+		// (discovery and other paths the simulation does not serve still count as requests sent)
+		s.logReq(proc, req, Key{Resource: "?"}, false, 404, body)
 		return 404, statusObj(404, "NotFound", "the server could not find the requested resource "+path)
 	}
 	key := Key{p.info.Group, p.info.Version, p.info.Resource, p.ns, p.name}
